@@ -172,6 +172,14 @@ def run_case(case):
         # distance of that cell (without wd: of its whole column) is exactly zero
         ix_, iy_ = int(rng.integers(2, ncell - 2)), int(rng.integers(2, max(3, int(0.8 * ncell) - 2)))
         mxy = (-half + (ix_ + 0.5) * res, -half * 0.8 + (iy_ + 0.5) * res)
+    if case["idx"] % 5 == 1:
+        # the receptor on an edge or a corner of the raster, or beside it (a tower next to the mapped area): every cell then lies on one
+        # side of it in map coordinates, whatever the wind
+        ek = int(rng.integers(6))
+        ex_, ey_ = dom[1], dom[3]
+        mxy = [(ex_, float(rng.uniform(dom[2], dom[3]) * 0.5)), (ex_, ey_), (ex_, dom[2]), (ex_ + res * float(rng.integers(1, 4)), 0.0), (dom[0], float(rng.uniform(dom[2], dom[3]) * 0.5)),
+               (float(rng.uniform(dom[0], dom[1]) * 0.5), ey_)][ek]
+        buckets["receptor_on_edge_or_beside_the_raster"] = 1
     try:
         gx, gy, ffm = call(zm, z0, ws, ustar, L, sigma_v, dom, res, mxy, wd=wd_arg)
     except Warning as w:
